@@ -6,6 +6,8 @@ from . import parts
 def run(tier):
     ck = common.Check('C11', tier)
     res = parts.run_parts(ck, tier, ir_parts=('ir_alias',))
+    from .. import irrules
+    irrules.run_canaries(ck, {'ir_alias': [('R11.1', 'canary_use_after_move')]}, silent=('canary_leak_on_throw', 'canary_ok_alloc'))
     r = res.get('ir_alias', [])
     ck.floor('functions with an lvalue element parameter walked', sum(x['res']['entry_points'] for x in r),
              150 if tier == 'quick' else 1500)
